@@ -18,11 +18,11 @@ index structure, `cr.c:dft_stage_init` arithmetic; `Cr/Model.lean` — the count
 * **linear phase is centred and symmetric** (`linear_centred`, `linear_symmetric`, `makeLpf_symmetric`,
   `linear_design_centred`): `post_peak = (num_taps - 1)/2`, `num_taps` odd, tap `j` = tap `n-1-j`.
 * **the block-alignment clause of the frequency-domain up-sampling path** (`FDomainOK`: `L ∣ block_len` for power-of-two
-  `L`): holds for EVERY linear-phase stage (`linear_block_aligned`, with `at = 0` and `L·preload = post_peak`), holds for
-  every phase when `L ∣ 4` (`small_L_block_aligned`), and FAILS for non-linear phase with `L ≥ 8` on the pinned tree —
-  `f1_nonlinear_block_misaligned` is the negation with the concrete plan the real planner exports for HQ 1→128 phase 0
-  (finding F1; `checks/c14.py` replays it on the real code).  `fd_rate_exact_iff` says what the clause buys: the stage's
-  rate is exactly `L` iff it holds.
+  `L`): since the repair of finding F1 (trailing zeros after the phase transform, `tapPad`) it holds for EVERY phase response
+  and every power-of-two `L` (`block_aligned_all_phases`; linear phase additionally has `at = 0` and `L·preload = post_peak`,
+  `linear_block_aligned`).  `f1_historical_misaligned` keeps the witness of the finding: the arithmetic *without* the padding
+  step (`dftStageInitPreF1`) on the plan the planner exported for HQ 1→128 phase 0 violates the clause, the code as it is
+  does not.  `fd_rate_exact_iff` says what the clause buys: the stage's rate is exactly `L` iff it holds.
 
 What Lean does not carry: that the cepstral transform leaves `|H|` unchanged (floating point; measured by the falsifier),
 and the end-to-end mirror / symmetry of the multi-stage response (measured).  `Goal_magnitude_preserved` is stated, not claimed.
@@ -40,7 +40,7 @@ theorem init_stage_wf (i : DftIn) (hL : 0 < i.L) (h1 : 1 ≤ (dftStageInit i).nu
     (h4 : dftOutOK (toStage (dftStageInit i)).cfg 0) : (toStage (dftStageInit i)).WF :=
   toStage_wf i hL h1 h2 h3 h4
 
-/-- the F1 plan itself (HQ 1→128, minimum phase, post stage) is well-formed for the count model -/
+/-- the former F1 plan (HQ 1→128, minimum phase, post stage: 381 taps out of the transform, padded to 385) -/
 def exMin : DftIn := { lin := false, L := 32, M := 1, fnEqL := true, fsLe1 := true, nRaw := 380, tpLen := 381, tpPost := 289, dftLen := 2048 }
 /-- the same stage with linear phase -/
 def exLin : DftIn := { exMin with lin := true }
@@ -169,33 +169,44 @@ theorem transformed_length_mod4 {α : Type} (cep : Cep α) (d n : Nat) (h : (cep
 
 example : (exCep.sel (fold 1 25)).len % 4 = 1 ∧ (firToPhaseAt exCep 1 25).taps.length = 33 := by decide
 
-/-- **Mirror settings give mirror plans.**  For `p` and `100 - p` (same `L`, `M`, design, and hence the same
-    `set_dft_length` answer, since the transformed lengths are equal): the same `num_taps`, `dft_length`, `block_len` —
-    so the same output-side bookkeeping and the same status of the block-alignment clause — and mirrored latency:
-    `post_peak(p) + post_peak(100 - p) = num_taps - 1`. -/
+/-- **Mirror settings give plans that are mirrored up to the trailing zeros.**  For `p` and `100 - p` (same `L`, `M`, design,
+    and hence the same `set_dft_length` answer, since the padded lengths are equal): the same number of trailing zeros, the
+    same `num_taps`, `dft_length`, `block_len` — so the same output-side bookkeeping.  The latency is mirrored about the
+    *unpadded* filter: `post_peak(p) + post_peak(100 - p) + 1 = num_taps + pad` (both settings get the zeros at the same end,
+    so after padding the two filters are reverses of each other shifted by `pad` taps; with `pad = 0`, i.e. whenever `L`
+    already divides the transformed length minus one or `L` is not a power of two, exactly mirrored). -/
 theorem mirror_plans {α : Type} (base : DftIn) (cep : Cep α) (d n : Nat) (h : n ≤ 100 * d) (hne : n ≠ 50 * d)
     (h0 : 0 ≤ (firToPhaseAt cep d n).postLen) (h1 : 0 ≤ (firToPhaseAt cep d (100 * d - n)).postLen) :
     let a := dftStageInit (dftInOf base cep d n)
     let b := dftStageInit (dftInOf base cep d (100 * d - n))
-    a.numTaps = b.numTaps ∧ a.blockLen = b.blockLen ∧ a.postPeak + b.postPeak + 1 = a.numTaps ∧
-    (FDomainOK a ↔ FDomainOK b) := by
+    a.numTaps = b.numTaps ∧ a.padTaps = b.padTaps ∧ a.blockLen = b.blockLen ∧
+    a.postPeak + b.postPeak + 1 = a.numTaps + a.padTaps ∧ (FDomainOK a ↔ FDomainOK b) := by
   intro a b
   obtain ⟨mt, mp⟩ := mirror cep d n h hne
   have hlen : (firToPhaseAt cep d (100 * d - n)).taps.length = (firToPhaseAt cep d n).taps.length := by rw [mt, List.length_reverse]
-  have ha : a.numTaps = (firToPhaseAt cep d n).taps.length := (dft_nonlin _ rfl).1
-  have hb : b.numTaps = (firToPhaseAt cep d (100 * d - n)).taps.length := (dft_nonlin _ rfl).1
-  have hap : a.postPeak = (firToPhaseAt cep d n).postLen.toNat := (dft_nonlin _ rfl).2.1
-  have hbp : b.postPeak = (firToPhaseAt cep d (100 * d - n)).postLen.toNat := (dft_nonlin _ rfl).2.1
-  have hnt : a.numTaps = b.numTaps := by rw [ha, hb, hlen]
+  obtain ⟨ha, hap, hapad, _, _⟩ := dft_nonlin (dftInOf base cep d n) rfl
+  obtain ⟨hb, hbp, hbpad, _, _⟩ := dft_nonlin (dftInOf base cep d (100 * d - n)) rfl
+  have eL : (dftInOf base cep d (100 * d - n)).L = (dftInOf base cep d n).L := rfl
+  have eT : (dftInOf base cep d (100 * d - n)).tpLen = (dftInOf base cep d n).tpLen := hlen
+  have eTa : (dftInOf base cep d n).tpLen = (firToPhaseAt cep d n).taps.length := rfl
+  have ePa : (dftInOf base cep d n).tpPost = (firToPhaseAt cep d n).postLen.toNat := rfl
+  have ePb : (dftInOf base cep d (100 * d - n)).tpPost = (firToPhaseAt cep d (100 * d - n)).postLen.toNat := rfl
+  rw [eL, eT] at hb hbp hbpad
+  have hnt : a.numTaps = b.numTaps := by rw [ha, hb]
+  have hpad : a.padTaps = b.padTaps := by rw [hapad, hbpad]
   have hbl : a.blockLen = b.blockLen := by
     rw [dft_blockLen, dft_blockLen, hnt]; rfl
-  refine ⟨hnt, hbl, ?_, ?_⟩
-  · rw [hap, hbp, ha]
+  refine ⟨hnt, hpad, hbl, ?_, ?_⟩
+  · rw [hap, hbp, ha, hapad, ePa, ePb, eTa]
     omega
   · unfold FDomainOK; rw [hbl]; exact Iff.rfl
 
 example : let a := dftStageInit (dftInOf exMin exCep 1 25); let b := dftStageInit (dftInOf exMin exCep 1 75)
-    a.numTaps = 33 ∧ b.numTaps = 33 ∧ a.postPeak = 20 ∧ b.postPeak = 12 := by decide
+    a.numTaps = 33 ∧ b.numTaps = 33 ∧ a.padTaps = 0 ∧ a.postPeak = 20 ∧ b.postPeak = 12 := by decide
+/-- with trailing zeros: 21 taps at minimum / maximum phase (peak 5 taps in), `L = 32`: 12 zeros, 33 taps -/
+def exCep2 : Cep Nat := { sel := fun _ => { len := 21, workLen := 2048, peak := 5, begin0 := 13, end0 := 19 }, work := fun _ j => j }
+example : let a := dftStageInit (dftInOf exMin exCep2 1 0); let b := dftStageInit (dftInOf exMin exCep2 1 100)
+    a.numTaps = 33 ∧ a.padTaps = 12 ∧ b.padTaps = 12 ∧ a.postPeak + b.postPeak + 1 = 33 + 12 := by decide
 
 /-! ## (c) `lsx_make_lpf` -/
 
@@ -220,7 +231,7 @@ theorem latency_split (i : DftIn) (hL : 0 < i.L) :
     (dftStageInit i).postPeak = i.L * (dftStageInit i).preload + (dftStageInit i).clk ∧ (dftStageInit i).clk < i.L :=
   dft_latency i hL
 
-example : (dftStageInit exMin).postPeak = 289 ∧ (dftStageInit exMin).preload = 9 ∧ (dftStageInit exMin).clk = 1 := by decide
+example : (dftStageInit exMin).postPeak = 293 ∧ (dftStageInit exMin).preload = 9 ∧ (dftStageInit exMin).clk = 5 := by decide
 
 /-- **Linear phase: odd length, peak exactly in the middle** — for every `L`, `Fn`, every length estimate. -/
 theorem linear_design_centred (i : DftIn) (hl : i.lin = true) :
@@ -299,19 +310,60 @@ theorem small_L_block_aligned (i : DftIn) (hL4 : i.L ∣ 4) (hD : i.L ∣ (dftSt
 
 /-- the design length for non-linear phase is `≡ 1 (mod 4)` -/
 theorem nonlinear_design_mod4 (i : DftIn) (hl : i.lin = false) : (dftStageInit i).nDesign % 4 = 1 := by
-  rw [(dft_nonlin i hl).2.2.2, roundTaps_form]; omega
+  rw [(dft_nonlin i hl).2.2.2.2, roundTaps_form]; omega
 
 def exSmall : DftIn := { lin := false, L := 4, M := 1, fnEqL := false, nRaw := 810, tpLen := 813, tpPost := 795, dftLen := 4096 }
 example : FDomainOK (dftStageInit exSmall) ∧ (dftStageInit exSmall).numTaps % 4 = 1 ∧ exSmall.L ∣ 4 := by decide
 
-/-- **Finding F1 (negation of the clause for non-linear phase).**  The plan the real planner exports for HQ, 1→128,
-    `phase_response = 0` (post stage: `L = 32`, `num_taps = 381`, `post_peak = 289`, `dft_length = 2048`) has a
-    power-of-two `L` that does not divide `block_len = 1668`; the filter centre is off the input grid (`at = 1`).  The
-    same stage with linear phase is aligned.  Replayed on the real code by `checks/c14.py` (sine residual ≈ −45 dB). -/
-theorem f1_nonlinear_block_misaligned :
-    ∃ i : DftIn, i.lin = false ∧ isPow2L i.L = true ∧ (toStage (dftStageInit i)).WF ∧ ¬ FDomainOK (dftStageInit i) ∧
-      (dftStageInit i).clk ≠ 0 ∧ FDomainOK (dftStageInit { i with lin := true }) :=
-  ⟨exMin, by decide, by decide, by decide, by decide, by decide, by decide⟩
+/-- **The block-alignment clause holds for every phase response.**  Power-of-two `L`, `set_dft_length` answering a power of
+    two: non-linear phase — whatever length and peak position the transform produced — by the trailing zeros
+    (`tapPad`: `L ∣ num_taps - 1`); linear phase by the length rounding (`k = 2L` when `Fn == L`, else `k = 4` with `L ∣ 4`:
+    the two ways the planner calls `dft_stage_init` with a power-of-two `L`; hypothesis `hlin`, evaluated on every exported
+    plan).  And the forward transform keeps 32 points. -/
+theorem block_aligned_all_phases (i : DftIn) (hp : isPow2L i.L = true) (b : Nat) (hD : i.dftLen = 2 ^ b)
+    (hlin : i.lin = true → i.fnEqL = true ∨ i.L ∣ 4) (hnl : i.lin = false → 1 ≤ i.tpLen) :
+    FDomainOK (dftStageInit i) ∧ i.L ∣ (dftStageInit i).blockLen ∧ i.L ∣ (dftStageInit i).numTaps - 1 ∧
+    32 * i.L ≤ (dftStageInit i).dftLen := by
+  obtain ⟨a, _, ha⟩ := isPow2L_spec i.L hp
+  have hge : 32 * i.L ≤ finalDftLen i.L i.dftLen :=
+    finalDftLen_ge i.L i.dftLen hp (by rw [hD]; exact Nat.pow_pos (by omega))
+  obtain ⟨c, hc⟩ := finalDftLen_pow2 i.L b
+  rw [← hD] at hc
+  have hdvdD : i.L ∣ finalDftLen i.L i.dftLen := by
+    rw [hc]
+    have : i.L ≤ 2 ^ c := by rw [← hc]; omega
+    rw [ha] at this ⊢
+    exact pow2_dvd_of_le a c this
+  have htaps : i.L ∣ (dftStageInit i).numTaps - 1 := by
+    cases hl : i.lin
+    · rw [(dft_nonlin i hl).1]; exact tapPad_dvd i.L i.tpLen hp (hnl hl)
+    · rw [(dft_lin_numTaps i hl).1]
+      have hk : i.L ∣ designK true i.L i.fnEqL := by
+        unfold designK
+        rcases hlin hl with hf | h4
+        · simp [hp, hf]
+        · split
+          · exact ⟨2, by omega⟩
+          · exact h4
+      have hm := roundTaps_mod i.nRaw (designK true i.L i.fnEqL)
+      exact Nat.dvd_trans hk (Nat.dvd_of_mod_eq_zero hm)
+  have hbl : i.L ∣ (dftStageInit i).blockLen := by
+    rw [dft_blockLen, dft_dftLen]; exact Nat.dvd_sub hdvdD htaps
+  exact ⟨fun _ => by rw [dft_L]; exact hbl, hbl, htaps, by rw [dft_dftLen]; exact hge⟩
+
+example : FDomainOK (dftStageInit exMin) ∧ (dftStageInit exMin).numTaps = 385 ∧ (dftStageInit exMin).padTaps = 4 ∧
+    (dftStageInit exMin).blockLen = 1664 := by decide
+example : isPow2L exMin.L = true ∧ exMin.dftLen = 2 ^ 11 ∧ 1 ≤ exMin.tpLen := by decide
+
+/-- **Finding F1, historical witness.**  The plan the planner exported for HQ, 1→128, `phase_response = 0` before the repair
+    (post stage: `L = 32`, transformed filter of 381 taps, peak 289 from the end, `dft_length = 2048`): with the arithmetic
+    as it was — no padding step, `dftStageInitPreF1` — the power-of-two `L` does not divide `block_len = 1668` and the stage
+    is still well-formed for the count model (which is why the count-level theorems did not exclude it); with the code as
+    it is (4 trailing zeros, 385 taps, `block_len = 1664`) the clause holds. -/
+theorem f1_historical_misaligned :
+    ∃ i : DftIn, i.lin = false ∧ isPow2L i.L = true ∧ (toStage (dftStageInitPreF1 i)).WF ∧ ¬ FDomainOK (dftStageInitPreF1 i) ∧
+      (dftStageInitPreF1 i).blockLen = 1668 ∧ FDomainOK (dftStageInit i) ∧ (dftStageInit i).blockLen = 1664 :=
+  ⟨exMin, by decide, by decide, by decide, by decide, by decide, by decide, by decide⟩
 
 /-- **What the clause buys**: a block yields `block_len` frames for `⌈(block_len − at)/L⌉` frames read (`at` never
     changes on the frequency-domain path), so the stage's rate is exactly `L` iff `L ∣ block_len`. -/
